@@ -217,18 +217,119 @@ theorem flushThen_cost (E : Env) (site : String) (op : Nat) (buf : Bytes) (n : N
       exact ⟨by assumption, by omega, rfl, hc.1, hc.2⟩
     · cases hb
 
+/-! ## the fuel of the two loops is never exhausted -/
+
+theorem floatLoop_noFuel : ∀ (fuel : Nat) (buf : Bytes) (s : List Nat) (first : Bool) (next : Nat)
+    (c : Cost), 2 * buf.length + (if first then 1 else 2) ≤ fuel →
+      floatLoop fuel buf s first next c ≠ .err "fuel"
+  | 0, _, _, first, _, _, h => by cases first <;> simp at h
+  | fuel+1, buf, s, first, next, c, h => by
+    unfold floatLoop
+    cases first
+    · simp only [Bool.false_eq_true, if_false] at h ⊢
+      change (Outcome.ok _ >>= _) ≠ _
+      rw [ok_bind]
+      dsimp only
+      repeat' split
+      all_goals first
+        | (apply floatLoop_noFuel; simp only [if_true]; omega)
+        | (intro hh; first | (injection hh with hh; revert hh; decide) | cases hh)
+    · simp only [if_true] at h ⊢
+      by_cases h0 : buf.length = 0
+      · rw [if_pos h0]; intro hh; injection hh with hh; revert hh; decide
+      · rw [if_neg h0]
+        rw [idx_ok _ buf 0 (by omega), ok_bind, sliceFrom_ok _ buf 1 (by omega), ok_bind]
+        change (Outcome.ok _ >>= _) ≠ _
+        rw [ok_bind]
+        dsimp only
+        repeat' split
+        all_goals first
+          | (apply floatLoop_noFuel
+             simp only [List.length_drop, Bool.false_eq_true, if_false]; omega)
+          | (intro hh; first | (injection hh with hh; revert hh; decide) | cases hh)
+
+
+theorem decodeFloat_noFuel (E : Env) (buf : Bytes) : decodeFloat E buf ≠ .err "fuel" := by
+  unfold decodeFloat
+  have hnf := floatLoop_noFuel (2 * buf.length + 1) buf [] true 0 Cost.zero (by simp only [if_true]; omega)
+  cases hfl : floatLoop (2 * buf.length + 1) buf [] true 0 Cost.zero with
+  | ok r =>
+    obtain ⟨⟨rest, s⟩, c⟩ := r
+    rw [ok_bind]
+    dsimp only
+    split
+    · intro hh; injection hh with hh; revert hh; decide
+    · intro hh; cases hh
+  | err e =>
+    intro hh
+    rw [hfl] at hnf
+    injection hh with hh
+    subst hh
+    exact hnf rfl
+  | panic s => intro hh; cases hh
+
+theorem flushLoop_err (E : Env) : ∀ (n i : Nat) (stack : List Operand) (c : Cost) (e : String),
+    flushLoop E n i stack c = .err e → e = "other"
+  | 0, _, _, _, _, h => by unfold flushLoop at h; cases h
+  | n+1, i, stack, c, e, h => by
+    unfold flushLoop at h
+    cases hx : idx "dict.go:48#stack[i]" stack i with
+    | ok x =>
+      rw [hx, ok_bind] at h
+      dsimp only at h
+      split at h
+      · cases h; rfl
+      · split at h
+        · cases h
+        · split at h
+          · cases h; rfl
+          · exact flushLoop_err E n _ _ _ e h
+    | err e2 => unfold idx at hx; split at hx <;> cases hx
+    | panic s => rw [hx] at h; cases h
+
+theorem flush_err (E : Env) (op : Nat) (stack : List Operand) (res : Dict) (c : Cost) (e : String)
+    (h : flush E op stack res c = .err e) : e = "other" := by
+  unfold flush at h
+  split at h
+  · dsimp only at h
+    generalize hl : (if op = Cff.opROS ∧ stack.length > 2 then 2 else stack.length) = l at h
+    cases hfl : flushLoop E l 0 stack c with
+    | ok r => rw [hfl] at h; cases h
+    | err e2 => rw [hfl] at h; cases h; exact flushLoop_err E _ _ _ _ _ hfl
+    | panic s => rw [hfl] at h; cases h
+  · cases h
+
+theorem flushThen_err (E : Env) (site : String) (op : Nat) (buf : Bytes) (n : Nat)
+    (stack : List Operand) (res : Dict) (c : Cost) (e : String)
+    (h : flushThen E site op buf n stack res c = .err e) : e = "other" := by
+  unfold flushThen at h
+  cases hf : flush E op stack res c with
+  | ok r =>
+    rw [hf] at h
+    dsimp only at h
+    unfold sliceFrom at h
+    split at h <;> cases h
+  | err e2 =>
+    rw [hf] at h
+    dsimp only at h
+    unfold sliceFrom at h
+    split at h
+    · cases h; exact flush_err E op stack res c _ hf
+    · cases h
+  | panic s => rw [hf] at h; cases h
+
 /-! ## one token -/
 
 /-- what one iteration guarantees (`c` = cost after charging the iteration): no panic; at least
 one byte consumed; with the potentials `3·len(buf) + len(stack)` (steps) and
-`9·len(buf) + len(stack)` (alloc) the iteration pays for itself -/
+`9·len(buf) + len(stack)` (alloc) the iteration pays for itself; the error is never the model's own "fuel" -/
 def IterSpec (buf : Bytes) (stack : List Operand) (c : Cost) :
     Outcome ((Bytes × List Operand × Dict) × Cost) → Prop
   | .ok ((buf', stack', _), c') =>
     buf'.length + 1 ≤ buf.length ∧
     c'.steps + 3 * buf'.length + stack'.length + 1 ≤ c.steps + 3 * buf.length + stack.length ∧
     c'.alloc + 9 * buf'.length + stack'.length ≤ c.alloc + 9 * buf.length + stack.length
-  | .err _ => True
+  | .err e => e ≠ "fuel"
   | .panic _ => False
 
 theorem spec_push (buf : Bytes) (stack : List Operand) (c : Cost) (k : Nat) (x : Operand) (res : Dict)
@@ -250,14 +351,19 @@ theorem spec_flushThen (E : Env) (site : String) (op : Nat) (buf : Bytes) (n : N
     subst hs
     simp only [IterSpec, List.length_nil]
     omega
-  | err e => exact True.intro
+  | err e =>
+    have := flushThen_err E site op buf n stack res c e hft
+    subst this
+    show "other" ≠ "fuel"
+    decide
   | panic s => rw [hft] at hnp; exact hnp
 
 theorem spec_escape (E : Env) (buf : Bytes) (stack : List Operand) (res : Dict) (c : Cost) :
     IterSpec buf stack c (iterEscape E buf stack res c) := by
   unfold iterEscape
   split
-  · exact True.intro
+  · show "invalid" ≠ "fuel"
+    decide
   · rw [idx_ok _ buf 1 (by omega), ok_bind]
     exact spec_flushThen _ _ _ _ _ _ _ _ (by omega) (by omega)
 
@@ -265,7 +371,8 @@ theorem spec_int16 (buf : Bytes) (stack : List Operand) (res : Dict) (c : Cost) 
     IterSpec buf stack c (iterInt16 buf stack res c) := by
   unfold iterInt16
   split
-  · exact True.intro
+  · show "invalid" ≠ "fuel"
+    decide
   · rw [idx_ok _ buf 1 (by omega), ok_bind, idx_ok _ buf 2 (by omega), ok_bind,
       sliceFrom_ok _ buf 3 (by omega), ok_bind]
     exact spec_push _ _ _ _ _ _ (by omega) (by omega)
@@ -274,7 +381,8 @@ theorem spec_int32 (buf : Bytes) (stack : List Operand) (res : Dict) (c : Cost) 
     IterSpec buf stack c (iterInt32 buf stack res c) := by
   unfold iterInt32
   split
-  · exact True.intro
+  · show "invalid" ≠ "fuel"
+    decide
   · rw [idx_ok _ buf 1 (by omega), ok_bind, idx_ok _ buf 2 (by omega), ok_bind,
       idx_ok _ buf 3 (by omega), ok_bind, idx_ok _ buf 4 (by omega), ok_bind,
       sliceFrom_ok _ buf 5 (by omega), ok_bind]
@@ -290,7 +398,8 @@ theorem spec_pos (v : Nat) (buf : Bytes) (stack : List Operand) (res : Dict) (c 
     IterSpec buf stack c (iterPos v buf stack res c) := by
   unfold iterPos
   split
-  · exact True.intro
+  · show "invalid" ≠ "fuel"
+    decide
   · rw [idx_ok _ buf 1 (by omega), ok_bind, sliceFrom_ok _ buf 2 (by omega), ok_bind]
     exact spec_push _ _ _ _ _ _ (by omega) (by omega)
 
@@ -298,7 +407,8 @@ theorem spec_neg (v : Nat) (buf : Bytes) (stack : List Operand) (res : Dict) (c 
     IterSpec buf stack c (iterNeg v buf stack res c) := by
   unfold iterNeg
   split
-  · exact True.intro
+  · show "invalid" ≠ "fuel"
+    decide
   · rw [idx_ok _ buf 1 (by omega), ok_bind, sliceFrom_ok _ buf 2 (by omega), ok_bind]
     exact spec_push _ _ _ _ _ _ (by omega) (by omega)
 
@@ -315,7 +425,13 @@ theorem spec_real (E : Env) (buf : Bytes) (stack : List Operand) (res : Dict) (c
     rw [ok_bind]
     simp only [IterSpec, List.length_append, List.length_cons, List.length_nil, Cost.mem, addCost]
     omega
-  | err e => exact True.intro
+  | err e =>
+    have := decodeFloat_noFuel E (buf.drop 1)
+    rw [hdf] at this
+    show e ≠ "fuel"
+    intro hh
+    subst hh
+    exact this rfl
   | panic s => rw [hdf] at hnp; exact hnp
 
 theorem spec_switch (E : Env) (v : Nat) (buf : Bytes) (stack : List Operand) (res : Dict) (c : Cost)
@@ -323,7 +439,7 @@ theorem spec_switch (E : Env) (v : Nat) (buf : Bytes) (stack : List Operand) (re
   unfold iterSwitch
   repeat' split
   all_goals first
-    | exact True.intro
+    | (show "invalid" ≠ "fuel"; decide)
     | exact spec_escape _ _ _ _ _
     | exact spec_flushThen _ _ _ _ _ _ _ _ (by omega) (by omega)
     | exact spec_int16 _ _ _ _
@@ -398,36 +514,42 @@ theorem decodeDict_cost (E : Env) (buf : Bytes) (d : Dict) (c : Cost)
   simp only [Cost.zero, Cost.mem, List.length_nil] at this
   omega
 
-/-! ## the fuel of the two loops is never exhausted -/
+/-! ## the fuel of the DICT loop is never exhausted
 
-theorem floatLoop_noFuel : ∀ (fuel : Nat) (buf : Bytes) (s : List Nat) (first : Bool) (next : Nat)
-    (c : Cost), 2 * buf.length + (if first then 1 else 2) ≤ fuel →
-      floatLoop fuel buf s first next c ≠ .err "fuel"
-  | 0, _, _, first, _, _, h => by cases first <;> simp at h
-  | fuel+1, buf, s, first, next, c, h => by
-    unfold floatLoop
-    cases first
-    · simp only [Bool.false_eq_true, if_false] at h ⊢
-      change (Outcome.ok _ >>= _) ≠ _
-      rw [ok_bind]
-      dsimp only
-      repeat' split
-      all_goals first
-        | (apply floatLoop_noFuel; simp only [if_true]; omega)
-        | (intro hh; first | (injection hh with hh; revert hh; decide) | cases hh)
-    · simp only [if_true] at h ⊢
-      by_cases h0 : buf.length = 0
-      · rw [if_pos h0]; intro hh; injection hh with hh; revert hh; decide
-      · rw [if_neg h0]
-        rw [idx_ok _ buf 0 (by omega), ok_bind, sliceFrom_ok _ buf 1 (by omega), ok_bind]
-        change (Outcome.ok _ >>= _) ≠ _
+so the error outcomes of the model are errors of the Go code, and no panic site is hidden behind
+an artificial stop (for `decodeFloat`: `decodeFloat_noFuel` above) -/
+
+theorem dictLoop_noFuel (E : Env) : ∀ (fuel : Nat) (buf : Bytes) (stack : List Operand) (res : Dict)
+    (c : Cost), buf.length ≤ fuel → dictLoop E fuel buf stack res c ≠ .err "fuel"
+  | 0, buf, stack, res, c, h => by
+    unfold dictLoop
+    rw [if_pos (by omega)]
+    split
+    · intro hh; injection hh with hh; revert hh; decide
+    · intro hh; cases hh
+  | fuel+1, buf, stack, res, c, h => by
+    unfold dictLoop
+    split
+    · split
+      · intro hh; injection hh with hh; revert hh; decide
+      · intro hh; cases hh
+    · have hs := spec_iter E buf stack res c (by omega)
+      cases hdi : dictIter E buf stack res c with
+      | ok r =>
+        obtain ⟨⟨buf', stack', res'⟩, c'⟩ := r
+        rw [hdi] at hs
+        simp only [IterSpec] at hs
         rw [ok_bind]
-        dsimp only
-        repeat' split
-        all_goals first
-          | (apply floatLoop_noFuel
-             simp only [List.length_drop, Bool.false_eq_true, if_false]; omega)
-          | (intro hh; first | (injection hh with hh; revert hh; decide) | cases hh)
+        exact dictLoop_noFuel E fuel buf' stack' res' c' (by omega)
+      | err e =>
+        rw [hdi] at hs
+        intro hh
+        injection hh with hh
+        exact hs hh
+      | panic s => intro hh; cases hh
+
+theorem decodeDict_noFuel (E : Env) (buf : Bytes) : decodeDict E buf ≠ .err "fuel" :=
+  dictLoop_noFuel E _ _ _ _ _ (Nat.le_refl _)
 
 /-! ## bridge to the value-level model of C13 (`SfntV.Cff`, Model/CffDict.lean) -/
 
@@ -529,7 +651,7 @@ theorem floatLoop_nibbles : ∀ (buf : Bytes) (fuel : Nat) (s : List Nat) (next 
     | some p =>
       obtain ⟨ns, rest⟩ := p
       rw [hfn] at ih
-      simp only [List.any_cons, decide_eq_true_eq, hh13, hl13, decide_false, Bool.false_or,
+      simp only [List.any_cons, hh13, hl13, decide_false, Bool.false_or,
         List.flatMap_cons] at ih ⊢
       simp only [List.append_assoc] at ih ⊢
       exact ih
@@ -587,3 +709,337 @@ theorem decodeFloat_erase (E : Env) (hfv : E.fv = fvC13) (buf : Bytes) :
         rfl
       · rw [hw]
         rfl
+
+/-- forget the cost -/
+def eraseCost : Outcome (α × Cost) → Outcome α
+  | .ok (a, _) => .ok a
+  | .err e => .err e
+  | .panic s => .panic s
+
+/-- C13's conversion of one operand of a string-valued operator (the `conv` of `Cff.flushArgs`) -/
+def convC13 (std custom : Array String) (o : Operand) : Outcome Operand :=
+  let idx : Option Int := match o with
+    | .int v => some v
+    | .real neg m e => Cff.realAsIndex neg m e
+    | .str _ => none
+  match idx with
+  | none => .err "other"
+  | some i => match Cff.stringsGet std custom i with
+    | some s => .ok (.str s)
+    | none => .err "other"
+
+theorem idx_mid (site : String) (pre : List α) (x : α) (post : List α) :
+    idx site (pre ++ x :: post) pre.length = .ok x := by
+  unfold idx
+  simp
+
+theorem flushLoop_go (std custom : Array String) : ∀ (mid pre post : List Operand) (c : Cost),
+    eraseCost (flushLoop (envC13 std custom) mid.length pre.length (pre ++ (mid ++ post)) c)
+      = match Cff.flushArgs.go (convC13 std custom) mid with
+        | .ok r => .ok (pre ++ (r ++ post))
+        | e => e
+  | [], pre, post, c => by
+    simp only [List.length_nil, List.nil_append, flushLoop, Cff.flushArgs.go, eraseCost]
+  | x :: xs, pre, post, c => by
+    simp only [List.length_cons, List.cons_append]
+    rw [flushLoop, idx_mid, ok_bind, Cff.flushArgs.go]
+    have hlen : ¬ pre.length ≥ (pre ++ x :: (xs ++ post)).length := by
+      simp only [List.length_append, List.length_cons]; omega
+    have hset : ∀ v, (pre ++ x :: (xs ++ post)).set pre.length v = (pre ++ [v]) ++ (xs ++ post) := by
+      intro v; simp
+    have ih := fun v c => flushLoop_go std custom xs (pre ++ [v]) post c
+    simp only [List.length_append, List.length_cons, List.length_nil, Nat.zero_add] at ih
+    cases x with
+    | int v =>
+      simp only [convC13, envC13, if_neg hlen]
+      cases hg : Cff.stringsGet std custom v with
+      | none => rfl
+      | some str =>
+        simp only [hset]
+        rw [show envC13 std custom = { fv := fvC13, asIdx := Cff.realAsIndex, get := Cff.stringsGet std custom } from rfl] at ih
+        rw [ih]
+        cases Cff.flushArgs.go (convC13 std custom) xs <;> simp
+    | real neg m e =>
+      simp only [convC13, envC13, if_neg hlen]
+      cases ha : Cff.realAsIndex neg m e with
+      | none => rfl
+      | some v =>
+        dsimp only
+        cases hg : Cff.stringsGet std custom v with
+        | none => rfl
+        | some str =>
+          simp only [hset]
+          rw [show envC13 std custom = { fv := fvC13, asIdx := Cff.realAsIndex, get := Cff.stringsGet std custom } from rfl] at ih
+          rw [ih]
+          cases Cff.flushArgs.go (convC13 std custom) xs <;> simp
+    | str s => rfl
+
+theorem flushArgs_eq (std custom : Array String) (op : Nat) (stack : List Operand) :
+    Cff.flushArgs std custom op stack =
+      if Cff.isStringOp op then
+        match Cff.flushArgs.go (convC13 std custom)
+            (stack.take (if op = Cff.opROS ∧ stack.length > 2 then 2 else stack.length)) with
+        | .ok r => .ok (r ++ stack.drop (if op = Cff.opROS ∧ stack.length > 2 then 2 else stack.length))
+        | e => e
+      else .ok stack := rfl
+
+/-- what C13 does with an operator: convert, store -/
+def storeC13 (std custom : Array String) (op : Nat) (stack : List Operand) (res : Dict) : Outcome Dict :=
+  match Cff.flushArgs std custom op stack with
+  | .ok args => .ok (Cff.dictSet res op args)
+  | .err e => .err e
+  | .panic s => .panic s
+
+theorem flush_erase (std custom : Array String) (op : Nat) (stack : List Operand) (res : Dict) (c : Cost) :
+    eraseCost (flush (envC13 std custom) op stack res c) = storeC13 std custom op stack res := by
+  unfold flush storeC13
+  rw [flushArgs_eq]
+  by_cases hs : Cff.isStringOp op = true
+  · simp only [if_pos hs]
+    generalize hl : (if op = Cff.opROS ∧ stack.length > 2 then 2 else stack.length) = l
+    have hle : l ≤ stack.length := by subst hl; split <;> omega
+    have := flushLoop_go std custom (stack.take l) [] (stack.drop l) c
+    simp only [List.length_take, Nat.min_eq_left hle, List.length_nil, List.nil_append,
+      List.take_append_drop] at this
+    cases hfl : flushLoop (envC13 std custom) l 0 stack c with
+    | ok r =>
+      obtain ⟨st, c1⟩ := r
+      rw [hfl] at this
+      cases hgo : Cff.flushArgs.go (convC13 std custom) (stack.take l) with
+      | ok r2 => rw [hgo] at this; simp only [eraseCost] at this; cases this; rfl
+      | err e => rw [hgo] at this; cases this
+      | panic s => rw [hgo] at this; cases this
+    | err e =>
+      rw [hfl] at this
+      cases hgo : Cff.flushArgs.go (convC13 std custom) (stack.take l) with
+      | ok r2 => rw [hgo] at this; cases this
+      | err e2 => rw [hgo] at this; simp only [eraseCost] at this; cases this; rfl
+      | panic s => rw [hgo] at this; cases this
+    | panic s =>
+      rw [hfl] at this
+      cases hgo : Cff.flushArgs.go (convC13 std custom) (stack.take l) with
+      | ok r2 => rw [hgo] at this; cases this
+      | err e2 => rw [hgo] at this; cases this
+      | panic s2 => rw [hgo] at this; simp only [eraseCost] at this; cases this; rfl
+  · simp only [if_neg hs]
+    rfl
+
+
+/-- one iteration of C13's loop (`Cff.decodeDictAux`): token, then push or convert-and-store -/
+def stepC13 (std custom : Array String) (buf : Bytes) (stack : List Operand) (res : Dict) :
+    Outcome (Bytes × List Operand × Dict) :=
+  match Cff.dictStep buf with
+  | .err e => .err e
+  | .panic s => .panic s
+  | .ok (.operand o, r) => .ok (r, stack ++ [o], res)
+  | .ok (.op code, r) =>
+    match Cff.flushArgs std custom code stack with
+    | .ok args => .ok (r, [], Cff.dictSet res code args)
+    | .err e => .err e
+    | .panic s => .panic s
+
+theorem flushThen_erase (std custom : Array String) (site : String) (op : Nat) (buf : Bytes) (n : Nat)
+    (stack : List Operand) (res : Dict) (c : Cost) (hn : n ≤ buf.length) :
+    eraseCost (flushThen (envC13 std custom) site op buf n stack res c)
+      = match Cff.flushArgs std custom op stack with
+        | .ok args => .ok (buf.drop n, [], Cff.dictSet res op args)
+        | .err e => .err e
+        | .panic s => .panic s := by
+  have hfe := flush_erase std custom op stack res c
+  unfold storeC13 at hfe
+  unfold flushThen
+  rw [sliceFrom_ok _ _ _ hn]
+  cases hf : flush (envC13 std custom) op stack res c with
+  | ok r =>
+    obtain ⟨d, c1⟩ := r
+    rw [hf] at hfe
+    cases hfa : Cff.flushArgs std custom op stack with
+    | ok a => rw [hfa] at hfe; simp only [eraseCost] at hfe; cases hfe; rfl
+    | err e => rw [hfa] at hfe; cases hfe
+    | panic s => rw [hfa] at hfe; cases hfe
+  | err e =>
+    rw [hf] at hfe
+    cases hfa : Cff.flushArgs std custom op stack with
+    | ok a => rw [hfa] at hfe; cases hfe
+    | err e2 => rw [hfa] at hfe; simp only [eraseCost] at hfe; cases hfe; rfl
+    | panic s => rw [hfa] at hfe; cases hfe
+  | panic s =>
+    rw [hf] at hfe
+    cases hfa : Cff.flushArgs std custom op stack with
+    | ok a => rw [hfa] at hfe; cases hfe
+    | err e2 => rw [hfa] at hfe; cases hfe
+    | panic s2 => rw [hfa] at hfe; simp only [eraseCost] at hfe; cases hfe; rfl
+
+theorem iter_erase (std custom : Array String) (b0 : UInt8) (rest : Bytes) (stack : List Operand)
+    (res : Dict) (c : Cost) :
+    eraseCost (dictIter (envC13 std custom) (b0 :: rest) stack res c)
+      = stepC13 std custom (b0 :: rest) stack res := by
+  unfold dictIter
+  rw [show idx "dict.go:72#buf[0]" (b0 :: rest) 0 = .ok b0 from rfl, ok_bind]
+  unfold iterSwitch stepC13 Cff.dictStep
+  dsimp only
+  by_cases h12 : b0.toNat = 12
+  · simp only [if_pos h12]
+    unfold iterEscape
+    cases rest with
+    | nil => rfl
+    | cons b1 r =>
+      simp only [List.length_cons]
+      rw [if_neg (by omega), show idx "dict.go:79#buf[1]" (b0 :: b1 :: r) 1 = .ok b1 from rfl, ok_bind,
+        flushThen_erase _ _ _ _ _ _ _ _ _ (by simp only [List.length_cons]; omega)]
+      rfl
+  simp only [if_neg h12]
+  by_cases h21 : b0.toNat ≤ 21
+  · simp only [if_pos h21]
+    rw [flushThen_erase _ _ _ _ _ _ _ _ _ (by simp only [List.length_cons]; omega)]
+    rfl
+  simp only [if_neg h21]
+  by_cases h27 : b0.toNat ≤ 27
+  · simp only [if_pos h27]; rfl
+  simp only [if_neg h27]
+  by_cases h28 : b0.toNat = 28
+  · simp only [if_pos h28]
+    unfold iterInt16
+    match rest with
+    | [] => rfl
+    | [_] => rfl
+    | b1 :: b2 :: r => rfl
+  simp only [if_neg h28]
+  by_cases h29 : b0.toNat = 29
+  · simp only [if_pos h29]
+    unfold iterInt32
+    match rest with
+    | [] => rfl
+    | [_] => rfl
+    | [_, _] => rfl
+    | [_, _, _] => rfl
+    | b1 :: b2 :: b3 :: b4 :: r => rfl
+  simp only [if_neg h29]
+  by_cases h30 : b0.toNat = 30
+  · simp only [if_pos h30]
+    unfold iterReal
+    rw [show sliceFrom "dict.go:100#buf[1:]" (b0 :: rest) 1 = .ok rest from rfl, ok_bind]
+    have hfe := decodeFloat_erase (envC13 std custom) rfl rest
+    cases hdf : decodeFloat (envC13 std custom) rest with
+    | ok r =>
+      obtain ⟨⟨tmp, s, v⟩, cf⟩ := r
+      rw [hdf] at hfe
+      simp only [eraseFloat] at hfe
+      rw [← hfe]
+      rfl
+    | err e => rw [hdf] at hfe; simp only [eraseFloat] at hfe; rw [← hfe]; rfl
+    | panic s => rw [hdf] at hfe; simp only [eraseFloat] at hfe; rw [← hfe]; rfl
+  simp only [if_neg h30]
+  by_cases h31 : b0.toNat = 31
+  · simp only [if_pos h31]; rfl
+  simp only [if_neg h31]
+  by_cases h246 : b0.toNat ≤ 246
+  · simp only [if_pos h246]; rfl
+  simp only [if_neg h246]
+  by_cases h250 : b0.toNat ≤ 250
+  · simp only [if_pos h250]
+    unfold iterPos
+    match rest with
+    | [] => rfl
+    | b1 :: r => rfl
+  simp only [if_neg h250]
+  by_cases h254 : b0.toNat ≤ 254
+  · simp only [if_pos h254]
+    unfold iterNeg
+    match rest with
+    | [] => rfl
+    | b1 :: r => rfl
+  simp only [if_neg h254]
+  rfl
+
+
+theorem decodeDictAux_step (std custom : Array String) (fuel : Nat) (b : UInt8) (rest : Bytes)
+    (stack : List Operand) (res : Dict) :
+    Cff.decodeDictAux std custom (fuel + 1) (b :: rest) stack res
+      = (stepC13 std custom (b :: rest) stack res >>= fun t =>
+          Cff.decodeDictAux std custom fuel t.1 t.2.1 t.2.2) := by
+  rw [Cff.decodeDictAux]
+  · unfold stepC13
+    cases Cff.dictStep (b :: rest) with
+    | ok t =>
+      obtain ⟨tok, r⟩ := t
+      cases tok with
+      | operand o => rfl
+      | op code =>
+        dsimp only
+        cases Cff.flushArgs std custom code stack <;> rfl
+    | err e => rfl
+    | panic s => rfl
+  · intro h; cases h
+
+theorem dictLoop_erase (std custom : Array String) : ∀ (fuel : Nat) (buf : Bytes)
+    (stack : List Operand) (res : Dict) (c : Cost),
+    eraseCost (dictLoop (envC13 std custom) fuel buf stack res c)
+      = Cff.decodeDictAux std custom fuel buf stack res
+  | 0, [], stack, res, c => by
+    rw [dictLoop, Cff.decodeDictAux]
+    simp only [List.length_nil, if_true]
+    split <;> rfl
+  | 0, b :: rest, stack, res, c => by
+    rw [dictLoop, Cff.decodeDictAux]
+    simp only [List.length_cons, Nat.add_one_ne_zero, if_false]
+    rfl
+  | fuel+1, [], stack, res, c => by
+    rw [dictLoop, Cff.decodeDictAux]
+    simp only [List.length_nil, if_true]
+    split <;> rfl
+  | fuel+1, b :: rest, stack, res, c => by
+    rw [dictLoop, decodeDictAux_step]
+    simp only [List.length_cons, Nat.add_one_ne_zero, if_false]
+    have hie := iter_erase std custom b rest stack res c
+    cases hdi : dictIter (envC13 std custom) (b :: rest) stack res c with
+    | ok r =>
+      obtain ⟨⟨buf', stack', res'⟩, c'⟩ := r
+      rw [hdi] at hie
+      simp only [eraseCost] at hie
+      rw [← hie, ok_bind, ok_bind]
+      exact dictLoop_erase std custom fuel buf' stack' res' c'
+    | err e => rw [hdi] at hie; simp only [eraseCost] at hie; rw [← hie]; rfl
+    | panic s => rw [hdi] at hie; simp only [eraseCost] at hie; rw [← hie]; rfl
+
+/-- bridging lemma: with C13's value-level functions for the three external parameters
+(`envC13`), the checked model of `decodeDict` is C13's `Cff.decodeDict` on EVERY input: same
+value, same error class, (hence, by `decodeDict_noPanic`, C13's model never panics either) -/
+theorem decodeDict_erase (std custom : Array String) (buf : Bytes) :
+    eraseCost (decodeDict (envC13 std custom) buf) = Cff.decodeDict std custom buf :=
+  dictLoop_erase std custom _ _ _ _ _
+
+/-! ## non-vacuity -/
+
+/-- a Top DICT with a SID (version), an array (FontBBox), a real behind an escape operator
+(ItalicAngle -12.5), 3- and 5-byte integers (CharStrings, charset), two-byte integers (Private)
+and ROS (two SIDs and an integer); 33 bytes, 29 steps, 34 allocated elements -/
+example : decodeDict (envC13 #["a", "b"] #["c"])
+    [139, 0,  0x8c, 0x8d, 0x8e, 0x8f, 5,  30, 0xe1, 0x2a, 0x5f, 12, 2,  28, 0x12, 0x34, 17,
+     29, 0, 1, 0x86, 0xa0, 15,  247, 0, 251, 0, 18,  141, 140, 139, 12, 30]
+    = .ok ([(0, [.str "a"]), (5, [.int 1, .int 2, .int 3, .int 4]), (3074, [.real true 125 (-1)]),
+            (17, [.int 4660]), (15, [.int 100000]), (18, [.int 108, .int (-108)]),
+            (3102, [.str "c", .str "b", .int 0])], ⟨29, 34⟩) := by decide +kernel
+
+/-- a SID beyond the string table is an error, not a panic -/
+example : decodeDict (envC13 #["a", "b"] #["c"]) [142, 0] = .err "other" := by decide +kernel
+/-- an operand left on the stack, a truncated operand, a reserved byte -/
+example : decodeDict (envC13 #[] #[]) [139] = .err "invalid" := by decide +kernel
+example : decodeDict (envC13 #[] #[]) [29, 1, 2, 3] = .err "invalid" := by decide +kernel
+example : decodeDict (envC13 #[] #[]) [255] = .err "invalid" := by decide +kernel
+
+set_option synthInstance.maxSize 512 in
+/-- `-12.5` followed by one more byte: remaining bytes, decimal string `-12.5`, value -/
+example : decodeFloat (envC13 #[] #[]) [0xe1, 0x2a, 0x5f, 7]
+    = .ok (([7], [14, 1, 2, 10, 5], (true, 125, -1)), ⟨6, 10⟩) := by decide +kernel
+set_option synthInstance.maxSize 512 in
+/-- `1e-3` -/
+example : decodeFloat (envC13 #[] #[]) [0x1c, 0x3f]
+    = .ok (([], [1, 11, 14, 3], (false, 1, -3)), ⟨4, 8⟩) := by decide +kernel
+set_option synthInstance.maxSize 512 in
+/-- reserved nibble, unterminated real -/
+example : decodeFloat (envC13 #[] #[]) [0x1d, 0x3f] = .err "other" := by decide +kernel
+set_option synthInstance.maxSize 512 in
+example : decodeFloat (envC13 #[] #[]) [0x12] = .err "other" := by decide +kernel
+
+end SfntV.Total.CffDict
